@@ -2011,3 +2011,37 @@ Proof.
   intro t. rewrite (tstep_none_erase (run_sched (init progs ws) sched)), (tstep_none_erase (run_sched (init progs' ws) sched)), E.
   reflexivity.
 Qed.
+
+(* ------------------------------------------------------------------ teardown *)
+
+Lemma dead_stays_dead s t s' : alive s = false -> tstep s t = Some s' -> executed s' = executed s /\ alive s' = false.
+Proof.
+  intros A H. destruct t as [i| | |]; cbn [tstep] in H.
+  - destruct (nth_error (posters s) i) as [[n [|k r]]|]; try discriminate.
+    destruct (post (queue s) (stopped s) (i, n, k)) as [[| | |] q']; inv H; sproj; split; (reflexivity || exact A).
+  - rewrite A in H. discriminate.
+  - destruct (stop_pending s); [|discriminate]. inv H. sproj. split; [reflexivity | exact A].
+  - rewrite A, andb_false_r in H. discriminate.
+Qed.
+
+Lemma dead_run : forall sched s, alive s = false ->
+  executed (run_sched s sched) = executed s /\ alive (run_sched s sched) = false.
+Proof.
+  induction sched as [|t r IH]; intros s A; [split; [reflexivity | exact A]|].
+  unfold run_sched. cbn [fold_left]. fold (run_sched (step_or_stay s t) r). unfold step_or_stay.
+  destruct (tstep s t) as [s'|] eqn:E; [|apply IH; exact A].
+  destruct (dead_stays_dead _ _ _ A E) as [EX A']. destruct (IH s' A') as [E1 E2].
+  split; [rewrite E1; exact EX | exact E2].
+Qed.
+
+Lemma only_consumer_executes_holds s : only_consumer_executes s.
+Proof.
+  split; [|intros A sched; apply dead_run; exact A].
+  intros t s' H. destruct t as [i| | |]; cbn [tstep] in H.
+  - destruct (nth_error (posters s) i) as [[n [|k r]]|]; try discriminate.
+    destruct (post (queue s) (stopped s) (i, n, k)) as [[| | |] q']; inv H; reflexivity.
+  - destruct (alive s); [|discriminate]. destruct (queue s) as [|it q'] eqn:EQ; [discriminate|].
+    rewrite do_task_ok in H. inv H. exists it. sproj. split; reflexivity.
+  - destruct (stop_pending s); [|discriminate]. inv H. reflexivity.
+  - destruct (stopped s && alive s); [|discriminate]. inv H. reflexivity.
+Qed.
